@@ -324,3 +324,22 @@ func highIndexSplitOps(g *Rng, base *KeyPair, fkey string) []Op {
 	}
 	return ops
 }
+
+// shortRevKey: a key pair (with revocation keys) of the given modulus length; parameters as for
+// the 256-bit toy set.
+func shortRevKey(id string, ln uint) *KeyPair {
+	ck := fmt.Sprintf("%s/short/%d", id, ln)
+	if v, ok := keyCache.Load(ck); ok {
+		return v.(*KeyPair)
+	}
+	base := gabikeys.BaseParameters{LePrime: 120, Lh: 256, Lm: 256, Ln: ln, Lstatzk: 80}
+	params := &gabikeys.SystemParameters{BaseParameters: base, DerivedParameters: gabikeys.MakeDerivedParameters(base)}
+	sk, pk, err := gabikeys.GenerateKeyPair(params, 2, 0, time.Unix(2000000000, 0))
+	if err != nil {
+		panic(err)
+	}
+	pk.Issuer = id
+	kp := &KeyPair{id: id, sk: sk, pk: pk}
+	keyCache.Store(ck, kp)
+	return kp
+}
